@@ -65,7 +65,7 @@ async fn emit_roles(rig: &mut Rig) {
 fn drain_net_log(rig: &mut Rig) {
     // control-plane calls and broker calls recorded by the fake network
     for e in rig.w.net.take_log() {
-        if e["kind"] == "call" || e["kind"] == "bcall" || e["kind"] == "restart" || e["kind"] == "round" {
+        if e["kind"] == "call" || e["kind"] == "bcall" || e["kind"] == "restart" || e["kind"] == "round" || e["kind"] == "round_start" || e["kind"] == "connect_failed" {
             rig.out.push(e);
         }
     }
